@@ -107,6 +107,23 @@ def _key_name(k):
     return repr(k)
 
 
+def _plain(v, depth=0):
+    """JSON-able image of plain data (sets sorted, everything else by repr)."""
+    if depth > 6:
+        return '...'
+    if isinstance(v, dict):
+        return sorted([[repr(k), _plain(x, depth + 1)] for k, x in v.items()], key=lambda p: p[0])
+    if isinstance(v, (list, tuple)):
+        return [_plain(x, depth + 1) for x in v]
+    if isinstance(v, (set, frozenset)):
+        return sorted(repr(x) for x in v)
+    if hasattr(v, 'pattern') and hasattr(v, 'flags'):
+        return 're:' + str(v.pattern)
+    if isinstance(v, (str, int, float, bool, type(None))):
+        return repr(v)
+    return _callable_name(v)
+
+
 def deep_fingerprint():
     """Structural fingerprint of everything a user of plain PyYAML relies on."""
     import yaml
@@ -143,6 +160,21 @@ def deep_fingerprint():
                                   os.path.basename(code.co_filename), code.co_firstlineno])
         meths.sort()
         fp[cname + '.methods'] = canon.short(meths)
+        # plain-data class attributes anywhere in the MRO (bool_values, inf_value,
+        # timestamp_regexp, DEFAULT_TAGS, ...): content, not identity
+        data = []
+        for k in cls.__mro__:
+            if k is object:
+                continue
+            for name, v in vars(k).items():
+                if name in _REGS or name.startswith('__'):
+                    continue
+                if isinstance(v, (dict, list, set, frozenset, tuple, str, int, float, bool, type(None))):
+                    data.append([k.__qualname__, name, canon.short(_plain(v))])
+                elif hasattr(v, 'pattern') and hasattr(v, 'flags'):
+                    data.append([k.__qualname__, name, 're:' + str(v.pattern) + '/' + str(v.flags)])
+        data.sort()
+        fp[cname + '.data'] = canon.short(data)
     L = yatiml.loader.Loader
     fp['Loader.statics'] = canon.short([repr(L._registered_classes), repr(L._additional_classes),
                                         repr(L.document_type)])
